@@ -58,8 +58,8 @@ func callIntrinsic(fr *frame, fn *ssa.Function, args []value) (value, bool) {
 	tb := x.tb
 	if x.spec > 0 {
 		switch name {
-		case "zzvInt", "zzvIntIn", "zzvBool", "zzvChoice", "zzvFloat", "zzvFloatIn", "zzvString", "zzvByteString",
-			"zzvAssume", "zzvKnown", "zzvKnownEnd", "zzvFreeze", "zzvUnfreeze", "zzvFloatMag", "zzvFloatRel", "zzvTokenDecoder", "zzvBodyChildren":
+		case "zzvInt", "zzvIntIn", "zzvBool", "zzvChoice", "zzvFloat", "zzvFloatIn", "zzvString", "zzvByteString", "zzvPrintable",
+			"zzvAssume", "zzvKnown", "zzvKnownEnd", "zzvFreeze", "zzvUnfreeze", "zzvFloatMag", "zzvFloatRel", "zzvTokenDecoder", "zzvFill", "zzvAssertSame", "zzvBodyChildren":
 			panic(specAbort{"intrinsic " + name + " in a speculative arm"})
 		}
 	}
@@ -89,6 +89,12 @@ func callIntrinsic(fr *frame, fn *ssa.Function, args []value) (value, bool) {
 		return s, true
 	case "zzvString":
 		return x.nondet("string", types.String, smt.Str), true
+	case "zzvPrintable":
+		// a symbolic string of at most n characters out of tab, newline and printable ASCII
+		n := asInt64(x.concretize(args[0], "max length"))
+		sv := x.nondet("string", types.String, smt.Str)
+		x.assume(tb.InRe(sv.t, fmt.Sprintf(`((_ re.loop 0 %d) (re.union (re.range " " "~") (str.to_re "\u{9}") (str.to_re "\u{a}")))`, n)))
+		return sv, true
 	case "zzvByteString":
 		// bounded byte-sequence string: length forked in [0,L], bytes symbolic
 		L := asInt64(args[0])
@@ -198,6 +204,12 @@ func callIntrinsic(fr *frame, fn *ssa.Function, args []value) (value, bool) {
 		// |a-b| <= tol on floats, one term (no forking)
 		d := tb.Sub(x.term(args[0]), x.term(args[1]))
 		return x.mkSym(types.Bool, tb.Le(tb.Abs(d), x.term(args[2]))), true
+	case "zzvFill":
+		x.fill(args[0])
+		return nil, true
+	case "zzvAssertSame":
+		x.assertSameIntrinsic(args[0], args[1], x.constStr(args[2], "label"))
+		return nil, true
 	case "zzvTokenDecoder":
 		return native{x.newTokenDecoder(args[0], args[1], args[2])}, true
 	case "zzvTokensConsumedAfterError":
